@@ -257,6 +257,10 @@ impl Search {
                     self.info.best_score = Some(alpha);
                     self.info.best_move = Some(best_ply);
                 }
+                // Cut before anything at all was completed: a legal move must still be answered
+                if self.info.best_move.is_none() {
+                    self.info.best_move = Some(if pvs { best_ply } else { mv });
+                }
                 return best_ply;
             }
 
@@ -302,6 +306,9 @@ impl Search {
                 );
 
             self.info.best_score = Some(alpha);
+            self.info.best_move = Some(best_ply);
+        } else if self.info.best_move.is_none() {
+            // Cut right after the last root move of the first iteration: still answer a move
             self.info.best_move = Some(best_ply);
         }
 
